@@ -42,10 +42,10 @@ ALPHABET_TEXT = list('"\'\\|>!&*%[]{}:#-?@`,~<=') + ['\n', '\r', '\t', ' ', '\x0
 ALPHABET_BYTES = [ord(c) for c in '"\'\\|>!&*%[]{}:#-?@`,~<=\n\r\t 09UuxFfG'] + [0x00, 0x85, 0xFF, 0xFE, 0xC0, 0xC2, 0xEF, 0xBB, 0xBF,
                                                                                  0x80, 0xE2, 0xED, 0xF4, 0xF8, 0x7F, 0x01]
 FAULTS = ['truncate', 'bitflip', 'overwrite', 'drop', 'duplicate', 'stutter', 'swap', 'garbage', 'bom', 'oddlen',
-          'confuse', 'surrogate', 'nest', 'transcode', 'numfield', 'flood', 'repeatitem', 'numlong']
+          'confuse', 'surrogate', 'nest', 'transcode', 'numfield', 'flood', 'repeatitem', 'numlong', 'namefield']
 # what ends up in a numeric field (escape code, URI escape, version number, indentation indicator)
 # after a small corruption: the characters that int() / float() / str.isdigit() accept or almost accept
-NUMFIELD_CHARS = ['-', '+', ' ', '\t', '_', '.', 'x', 'X', 'o', 'b', 'e', 'L', 'l', 'G', 'g', '\n', '\u0663', '\u00b2', '\u2460', '\uff10',
+NUMFIELD_CHARS = ['0', '1', '7', 'f', 'F', '8', 'c', '-', '+', ' ', '\t', '_', '.', 'x', 'X', 'o', 'b', 'e', 'L', 'l', 'G', 'g', '\n', '\u0663', '\u00b2', '\u2460', '\uff10',
                   '\u0967', '\u2082', '\x00', '\x85', '\xa0', '%', '\\']
 NUMFIELD_RE = None
 # what a lossy transcoder / input method does to ASCII: characters that Python's str predicates
@@ -53,7 +53,7 @@ NUMFIELD_RE = None
 CONFUSABLE = {
     'digit': ['\u00b2', '\u00b3', '\u00b9', '\u0663', '\u06f7', '\u2460', '\u2082', '\u2075', '\uff14', '\u0967', '\U0001d7d8', '\u2488'],
     'space': ['\u00a0', '\u2003', '\u3000', '\u2009', '\u200b', '\u1680', '\u202f', '\u205f', '\x85', '\u2028', '\x0b', '\x0c', '\x1f'],
-    'alpha': ['\uff21', '\uff41', '\u00aa', '\u00b5', '\u00df', '\u0130', '\u017f', '\u0391', '\u0430', '\uff46', '\u212a', '\ufb01'],
+    'alpha': ['\U00017000', '\U00018d00', '\U0001b170', '\U00030000', '\U00018b00', '\uff21', '\uff41', '\u00aa', '\u00b5', '\u00df', '\u0130', '\u017f', '\u0391', '\u0430', '\uff46', '\u212a', '\ufb01'],
     'punct': ['\uff1a', '\uff0d', '\u2010', '\u2212', '\uff3b', '\uff5b', '\u201c', '\u2018', '\uff03', '\uff01', '\uff06', '\uff0a', '\uff05', '\uff5c', '\uff1e'],
 }
 APIS = ['scan', 'parse', 'compose', 'compose_all']
@@ -71,7 +71,7 @@ def canaries():
 
 def plan(tier):
     if tier == 'quick':
-        return {'runs': 36000, 'wall': 300, 'batch': 8, 'shrink_s': 60, 'selfcheck': 8}
+        return {'runs': 64000, 'wall': 300, 'batch': 8, 'shrink_s': 60, 'selfcheck': 8}
     return {'runs': 1500000, 'wall': 2.5 * 3600, 'batch': 32, 'shrink_s': 120, 'selfcheck': 24}
 
 
@@ -131,8 +131,16 @@ def gen_fault(r, units, is_text):
     f = {'kind': kind, 'at': p}
     if kind == 'transcode':
         # replace an ASCII digit / blank / letter / indicator by a look-alike of the same class
+        marks = []
+        if n and r.random() < 0.4:
+            for i in range(min(n, 5000)):
+                u = units[i]
+                if (chr(u) if isinstance(u, int) else u) in '&*!%':
+                    marks.append(i)
         for _ in range(12):
             q = r.randrange(n) if n else 0
+            if marks:
+                q = min(n - 1, r.choice(marks) + r.randint(1, 5))     # inside the name that follows an indicator
             u = units[q] if n else ' '
             ch = chr(u) if isinstance(u, int) else u
             cls = 'digit' if ch in '0123456789' else 'space' if ch in ' \t' else 'alpha' if ch.isascii() and ch.isalpha() \
@@ -151,6 +159,21 @@ def gen_fault(r, units, is_text):
         else:
             f['at'] = q
             f['unit'] = r.choice(NUMFIELD_CHARS)
+    elif kind == 'namefield':
+        # a delimiter, control or odd letter inside a NAME (tag, tag handle, anchor, alias, directive): whatever parses
+        # names as URIs, identifiers or format strings sees a damaged one
+        import re as _re
+        text = units if is_text else (units.decode('latin-1') if units[:2] not in (b'\xff\xfe', b'\xfe\xff') else '')
+        ms = list(_re.finditer(r'[!&*%][^\s,\[\]{}]{2,}', text[:8000]))
+        if not ms:
+            f['kind'] = 'overwrite'
+            f['unit'] = r.choice(ALPHABET_TEXT) if is_text else r.choice(ALPHABET_BYTES)
+        else:
+            m = r.choice(ms)
+            f['at'] = r.randrange(m.start() + 1, m.end())
+            f['unit'] = r.choice(['[', ']', '[', ']', '[', ']', '{', '}', '(', ')', '<', '>', '"', "'", '%', '!', '#', '@', '`', '|', '\\', '^', ' ', ',',
+                                  '\x00', '\x7f', '\u00e9', '\U00017000', '%s', '{0}', '%(x)s'])
+            f['insert'] = r.random() < 0.5
     elif kind == 'numlong':
         # a numeric field grown to dozens or hundreds of digits (a stuck key, a corrupted length), with or without a
         # character after it that makes the whole thing stop being a number
@@ -237,6 +260,11 @@ def apply_fault(units, f, is_text):
         if p >= n:
             return units
         return units[:p] + (f['unit'] if is_text else bytes([f['unit']])) + units[p + 1:]
+    if k == 'namefield':
+        ins = f['unit'] if is_text else f['unit'].encode('utf-8')
+        if p >= n:
+            return units
+        return units[:p] + ins + units[p if f.get('insert') else p + 1:]
     if k == 'numlong':
         if p >= n:
             return units
@@ -333,16 +361,19 @@ def base_payload(r, rd):
             return 'noise', ''.join(rd.choice(ALPHABET_TEXT) if rd.random() < 0.6 else chr(rd.choice([rd.randrange(0x20, 0x7f), rd.randrange(0xa0, 0x3000),
                                     rd.randrange(0x10000, 0x10ffff)])) for _ in range(n)), True
         return 'noise', bytes(rd.choice(ALPHABET_BYTES) if rd.random() < 0.6 else rd.randrange(256) for _ in range(n)), False
-    if x < 0.06:
+    if x < 0.09:
         # tiny recursive documents (an anchor on a collection that contains its own alias): whatever walks
         # a node graph must cope with cycles, also when a fault multiplies the aliases
         text = rd.choice(['&a [x, *a, *a, y]\n', '--- &m {k: *m, j: [*m, *m]}\n', '- &a [*a]\n- *a\n- *a\n', '&a\n- *a\n- *a\n- b: *a\n',
                           '? &k [*k]\n: *k\n', '&a [&b {x: *a, y: *b}, *b, *a, *a]\n',
                           # aliases and anchors next to collection keys (defined, undefined, on the key itself)
                           '[a, b]: *missing\n', '? - foo\n  - bar\n: *baz\n', '--- &x one\n--- {? {sea: green} : *x}\n',
-                          '? &k {a: b}\n: *k\n? *k\n: c\n', '{[a, *u]: v}\n', '&a [x]: *a\n', '- ? [*a]\n  : &a b\n'])
+                          '? &k {a: b}\n: *k\n? *k\n: c\n', '{[a, *u]: v}\n', '&a [x]: *a\n', '- ? [*a]\n  : &a b\n',
+                          # tags that are URLs, URNs, or carry escapes (whatever inspects a tag must survive a damaged one)
+                          '!<http://example.com/point> v\n', '%TAG !e! http://example.com/schema/\n--- !e!point {x: 1}\n',
+                          '!<https://Example.COM:8080/a%20b?q=1> [1]\n', '--- !<urn:x-y:%41%C3%A9> z\n', '!e%21x &a%20 v\n'])
         return ('recursive', text, True) if rd.random() < 0.5 else ('recursive', text.encode('utf-8'), False)
-    if x < 0.11:
+    if x < 0.14:
         # small layouts the corpus does not contain: a quoted scalar that spans lines, its last line at an
         # arbitrary indentation, followed on the same line by another token (all small combinations)
         q = rd.choice(['"', "'"])
@@ -511,7 +542,14 @@ def check_marks(exc, units, is_text, lim):
                 bad.append([name, m.index, m.line, m.column, list(lim)])
     elif isinstance(exc, yaml.reader.ReaderError):
         pos = exc.position
-        if not isinstance(pos, int) or not (0 <= pos <= len(units) * (4 if is_text else 1) + 4):
+        # pure Python: an index into the delivered units; LibYAML: a byte offset into the UTF-8 form of a str
+        # (the offending unit lies inside the input: position <= len - 1; equality with len is tolerated)
+        limit = len(units)
+        if is_text and type(exc).__module__ != 'yaml.reader':
+            limit = len(units.encode('utf-8', 'surrogatepass'))
+        elif is_text and getattr(exc, 'encoding', None) not in (None, 'unicode'):
+            limit = len(units.encode('utf-8', 'surrogatepass'))
+        if not isinstance(pos, int) or not (0 <= pos <= limit):
             bad.append(['position', pos, len(units)])
     return bad
 
